@@ -154,4 +154,11 @@ PROPS = {
         note="Kernel, ndp.Listen and the sysctl files are fakes behind build-time seams (dial() itself is the real code). Sequences with more than K non-default answers are not covered.",
         parts=[part("envdfs", "internal/system", "TestVerifC11", shards={"quick": 8, "thorough": 16})],
     ),
+    "C17": dict(
+        level="model_checking", engine="sched",
+        technique="bounded-exhaustive enumeration of configurations x lifecycle points x State failures through the real Metrics scrape and debug-API handler (no panic, content = reference RA); delay-bounded schedule exploration of scrapes/API requests racing advertiser (re)initialisation on the instrumented real code",
+        text="Part 'enum': every stanza kind alone / all together / all minus one, never prepared or prepared through the real Prepare, with readable or failing State and all debug flag combinations: a scrape, Series() and GET /_/api/interfaces, /metrics, /debug/pprof/ must never panic; when prepared, every sample and the JSON must equal the reference RA and cover every option kind; routes are 200 iff enabled. Part 'sched': a scraper and an API client run 1-2 requests each while the real advertiser starts (interface not ready once), advertises and re-initialises after a link change, under every schedule within the deviation bound: no panic, no hang, each completed request is either an error or equals an RA content valid at some point during the request.",
+        note="The Prometheus registry and net/http server plumbing are bypassed (collect function and handler called directly). Plain data races between Prepare and a concurrent scrape are outside the statement and not gated.",
+        parts=[part("enum", "internal/corerad", "TestVerifC17", mode="sched")],
+    ),
 }
